@@ -247,11 +247,17 @@ func VerifHarness_C12_novouch() {
 	u2 := vkUntrusted(ctx, k, "peer2", true)
 	u1.outgoing.Open(100)
 	u2.outgoing.Open(100)
+	u2.untrustedState.SetVersionReceived() // so that its periodic check runs
 	t := vkTx(90, []int{0}, true)
 	tid := *t.TxHash()
-	for e := 0; e < 3; e++ {
+	for e := 0; e < 5; e++ {
 		verifrt.Advance(time.Duration(verifrt.IntRange("delay-ns", 0, 6_000_000_000)))
-		switch verifrt.Choose("event", 5) {
+		switch verifrt.Choose("event", 6) {
+		case 5: // the untrusted node's periodic check (re-requests announced transactions)
+			u2.check(ctx)
+			for len(u2.outgoing.Channel) > 0 {
+				<-u2.outgoing.Channel
+			}
 		case 4: // the body inside the extended-message envelope
 			u1.handleMessage(ctx, c12Ext(wire.CmdTx, t))
 		case 0:
